@@ -26,7 +26,9 @@ HOSTILE = ['*/', '/*', '*/ int x; /*', '#include <x>', 'a\\', '\\', 'a\\\nb', ' 
            'a\rb', 'a\x0bb', 'a\x0cb', 'a\x1cb', 'a\x1db', 'a\x1eb', 'a\x85b', 'a\u2028b', 'a\u2029b', 'a\r\nb',
            '\rint x;', '\x0cint y;', ' #error boom', '//', '// x', '"', "'", '??/', '??/\nint z;', '\ta\t',
            'L' * 300, 'é ü', '}', '};', 'namespace x {', '#define X', '#endif', '\n#error x', ' ', '', 'a\n', '\na',
-           'a \nb ', '/', '/\n/', '\\\n', '\\\\', 'a\\ ', 'line1\\\nint spliced;', '<::', '%:define Y']
+           'a \nb ', '/', '/\n/', '\\\n', '\\\\', 'a\\ ', 'line1\\\nint spliced;', '<::', '%:define Y',
+           '// ok\nint leaked;', '//\nint leaked2;', '\n'.join(f'line {i}' for i in range(14)), 'x\n' * 9,
+           '// This is generated content\nint z2;', 'Advanced Shell\nint z3;']
 
 
 def union_split(text):
